@@ -150,9 +150,11 @@ class C18(Check):
               "from the model beforehand) on every normal exit, or made on a private deep copy",
         "M2": "quotient form: coefficient = (f(x(1+d)) - f(x(1-d))) / (2 d x); scaled variant multiplies by x / f(x) with f(x) "
               "evaluated at the unperturbed model",
+        "M4": "sibling agreement of the evaluations inside one coefficient: the perturbed-up, perturbed-down and (for scaling) unperturbed "
+              "evaluations are the same call with the same state / options; they may differ only through the perturbed model value",
         "M3": "sequential and parallel execution use the same worker with the same arguments; results are keyed by the scanned parameter",
     }
-    floors = {"M1": 4, "M2": 6, "M3": 2}
+    floors = {"M1": 4, "M2": 6, "M3": 2, "M4": 3}
     decided = [
         "every routine leaves the model's parameter and initial values as it found them (sequential execution)",
         "coefficients are central difference quotients with relative displacement; scaled by value/flux at the unperturbed state",
@@ -172,6 +174,7 @@ class C18(Check):
                              ("_response_coefficient_worker", "upper", "lower")):
             self.m2(mod.func(name))
         self.m3(mod)
+        self.m4(mod)
 
     def m1(self, fn) -> None:
         q = fn.name
@@ -274,6 +277,38 @@ class C18(Check):
             else:
                 self.violated("M2", MOD, q, cons, s, f"`{norm(s)}` is not `coef *= old / f(unperturbed)` under the `normalized` flag")
 
+    def m4(self, mod) -> None:
+        # response coefficients: three steady-state evaluations
+        w = mod.func("_response_coefficient_worker")
+        calls = [c for c in walk_no_nested(w) if isinstance(c, ast.Call) and norm(c.func).endswith("_steady_state_worker")]
+        if len(calls) < 3:
+            raise AnalysisError("_response_coefficient_worker: upper / lower / normalisation steady-state runs not found")
+        sigs = [(tuple(norm(a) for a in c.args), tuple(sorted((k.arg, norm(k.value)) for k in c.keywords))) for c in calls]
+        if len(set(sigs)) == 1:
+            self.holds("M4", MOD, w.name, "same-evaluation-for-upper-lower-baseline", calls[0], f"{len(calls)} steady-state runs with identical arguments {dict(sigs[0][1])}")
+        else:
+            diff = [i for i, sg in enumerate(sigs) if sg != sigs[0]]
+            self.violated("M4", MOD, w.name, "same-evaluation-for-upper-lower-baseline", calls[diff[0]],
+                          f"steady-state run #{diff[0] + 1} is called with {dict(sigs[diff[0]][1])} but run #1 with {dict(sigs[0][1])}: numerator and scaling "
+                          "reference are computed from different start states",
+                          witness="response_coefficients(m, variables={...}, normalized=True) on a network with a conserved moiety: scaled coefficients are off by a constant factor")
+        for name, target in (("variable_elasticities", "variables"), ("parameter_elasticities", "variables")):
+            fn = mod.func(name)
+            calls = [c for c in walk_no_nested(fn) if isinstance(c, ast.Call) and norm(c.func) == "model.get_fluxes"]
+            if len(calls) < 3:
+                self.violated("M4", MOD, name, "same-evaluation-for-upper-lower-baseline", fn,
+                              f"only {len(calls)} flux evaluation(s): the scaled coefficient has no evaluation at the unperturbed state to refer to",
+                              witness="scaled elasticities are divided by a perturbed flux")
+                continue
+            times = {dict((k.arg, norm(k.value)) for k in c.keywords).get("time") for c in calls}
+            states = [dict((k.arg, norm(k.value)) for k in c.keywords).get("variables") for c in calls]
+            base_states = {s.split(" | ")[0] for s in states if s}
+            if times == {"time"} and base_states == {"variables"}:
+                self.holds("M4", MOD, name, "same-evaluation-for-upper-lower-baseline", calls[0], "all flux evaluations use the same time and the same base state")
+            else:
+                self.violated("M4", MOD, name, "same-evaluation-for-upper-lower-baseline", calls[0], f"flux evaluations differ in time {times} / base state {base_states}",
+                              witness="elasticities at a user-supplied state or time are scaled by the flux at another state")
+
     def m3(self, mod) -> None:
         fn = mod.func("response_coefficients")
         q = fn.name
@@ -316,6 +351,8 @@ class C18(Check):
             Variant("both-plus", MOD, "variable_elasticities", "variables | {var: old * (1 - displacement)}", "variables | {var: old * (1 + displacement)}", expect="M2|"),
             Variant("scale-by-perturbed", MOD, "variable_elasticities", "elasticity_coef *= old / model.get_fluxes(variables=variables, time=time)", "elasticity_coef *= old / upper", expect="M2|"),
             Variant("flux-response-from-variables", MOD, W, "(upper.fluxes.iloc[-1] - lower.fluxes.iloc[-1])", "(upper.fluxes.iloc[-1] - lower.variables.iloc[-1])", expect="M2|"),
+            Variant("baseline-run-at-other-state", MOD, W, "        norm = _steady_state_worker(model, rel_norm=rel_norm, integrator=integrator, y0=None)", "        norm = _steady_state_worker(model, rel_norm=rel_norm, integrator=integrator, y0=y0)", expect="M4|", quick=True),
+            Variant("baseline-flux-at-time-zero", MOD, "variable_elasticities", "elasticity_coef *= old / model.get_fluxes(variables=variables, time=time)", "elasticity_coef *= old / model.get_fluxes(variables=variables, time=0)", expect="M4|"),
             Variant("sequential-forced", MOD, "response_coefficients", "parallel=parallel", "parallel=False", expect="M3|"),
             Variant("components-swapped", MOD, "response_coefficients", "variables=pd.DataFrame({k: v[0] for k, v in res})", "variables=pd.DataFrame({k: v[1] for k, v in res})", expect="M3|", quick=True),
             Variant("scale-model-parameter", MOD, P, "        model.update_parameters({par: old * (1 + displacement)})", "        model.scale_parameter(par, 1 + displacement)", expect="M1|"),
